@@ -48,6 +48,10 @@ type descriptor struct {
 	// conditions sits on the exception path, 3 = the exception task declares a
 	// result that a gateway behind it reads
 	ExcData int `json:"excData,omitempty"`
+	// Timer: boundary event 0 is a timer boundary event (duration timer of 10 s
+	// on a mock clock, running from the creation of the instance); "clock"
+	// stimuli stand for its event
+	Timer bool `json:"timer,omitempty"`
 }
 
 type built struct {
@@ -159,20 +163,40 @@ func draw(rt *rapid.T) descriptor {
 	d := descriptor{HostKind: rapid.SampledFrom(kinds).Draw(rt, "host"), PreTask: rapid.Bool().Draw(rt, "pre"), Perturb: uint64(rapid.IntRange(0, 200).Draw(rt, "perturb")),
 		IDStyle: rapid.SampledFrom([]int{0, 0, 1, 1, 2, 3}).Draw(rt, "idStyle"), ExcData: rapid.SampledFrom([]int{0, 0, 1, 2, 3}).Draw(rt, "excData")}
 	nb := rapid.IntRange(1, 2).Draw(rt, "bounds")
+	d.Timer = rapid.IntRange(0, 4).Draw(rt, "timerBoundary") == 0
 	for i := 0; i < nb; i++ {
 		def := gen.EventDef{Kind: "signal", Ref: fmt.Sprintf("s%d", i)}
 		if rapid.Bool().Draw(rt, "msg") {
 			def = gen.EventDef{Kind: "message", Ref: fmt.Sprintf("m%d", i)}
 		}
+		if d.Timer && i == 0 {
+			def = gen.EventDef{Kind: "timer", TimerKind: "timeDuration", TimerExpr: "PT10S"}
+		}
 		intr := !exF2 && rapid.Bool().Draw(rt, "interrupt")
 		d.Bounds = append(d.Bounds, boundary{Def: def, Interrupt: intr})
 	}
-	ev := func(i int) drive.Stim { return drive.Stim{Kind: "event", Ev: evOf(d.Bounds[i].Def)} }
+	timerFired := false
+	ev := func(i int) drive.Stim {
+		if d.Bounds[i].Def.Kind == "timer" {
+			// the clock reaches the due time once; later steps move it on without a firing
+			if timerFired {
+				return drive.Stim{Kind: "clock", ClockS: 5}
+			}
+			timerFired = true
+			return drive.Stim{Kind: "clock", ClockS: 10, Ev: &model.Ev{Kind: "timer", Ref: d.Bounds[i].Def.TimerExpr}}
+		}
+		return drive.Stim{Kind: "event", Ev: evOf(d.Bounds[i].Def)}
+	}
 	nonMatch := drive.Stim{Kind: "event", Ev: &model.Ev{Kind: "signal", Ref: "zz"}}
 	// before activation
 	if d.PreTask {
 		if rapid.Bool().Draw(rt, "early") {
-			d.Script = append(d.Script, ev(rapid.IntRange(0, nb-1).Draw(rt, "earlyWhich")))
+			w := rapid.IntRange(0, nb-1).Draw(rt, "earlyWhich")
+			if d.Bounds[w].Def.Kind != "timer" {
+				// (a duration timer that falls due before the host is active is
+				// gone for good - its listener would never fire: finding C10-F1)
+				d.Script = append(d.Script, ev(w))
+			}
 		}
 		d.Script = append(d.Script, drive.Stim{Kind: "answer"})
 	}
@@ -282,7 +306,7 @@ func leave(d descriptor) *model.Answer {
 
 func run(d descriptor) (*drive.ScriptOutcome, *built) {
 	bt := build(d)
-	c := &drive.ScriptCase{Graph: bt.g, Lang: "expr", Vars: vars(d), Script: d.Script, Perturb: d.Perturb, Drain: true, DrainAns: leave(d)}
+	c := &drive.ScriptCase{Graph: bt.g, Lang: "expr", Vars: vars(d), Script: d.Script, Perturb: d.Perturb, Drain: true, DrainAns: leave(d), MockClock: d.Timer}
 	return drive.RunScript(c), bt
 }
 
@@ -291,7 +315,7 @@ func run(d descriptor) (*drive.ScriptOutcome, *built) {
 // that model step by step is one of the listed findings; anything else is new.
 func runAsIs(d descriptor) *drive.ScriptOutcome {
 	bt := build(d)
-	c := &drive.ScriptCase{Graph: bt.g, Lang: "expr", Vars: vars(d), Script: d.Script, Perturb: d.Perturb, Drain: true, DrainAns: leave(d), ModelAsIs: true}
+	c := &drive.ScriptCase{Graph: bt.g, Lang: "expr", Vars: vars(d), Script: d.Script, Perturb: d.Perturb, Drain: true, DrainAns: leave(d), ModelAsIs: true, MockClock: d.Timer}
 	return drive.RunScript(c)
 }
 
@@ -309,7 +333,7 @@ func knownMatch(d descriptor, out *drive.ScriptOutcome, bt *built) string {
 			stims = s.Burst
 		}
 		for _, x := range stims {
-			if x.Kind != "event" {
+			if (x.Kind != "event" && x.Kind != "clock") || x.Ev == nil {
 				continue
 			}
 			for i, b := range d.Bounds {
@@ -376,6 +400,9 @@ func classify(d descriptor, out *drive.ScriptOutcome) (cls []string, nt bool) {
 	}
 	if d.ExcData > 0 {
 		cls = append(cls, "exceptionPathReadsData")
+	}
+	if d.Timer {
+		cls = append(cls, "timerBoundaryEvent")
 	}
 	for _, b := range d.Bounds {
 		if b.Interrupt {
